@@ -3,3 +3,18 @@
 use crate::report::Report;
 
 pub fn c03_sources(_rep: &Report, _quick: bool, _f: &dyn Fn(&str, &str)) {}
+
+/// The shipped example programs (name, text), read from /repo/examples at run time.
+pub fn examples() -> Vec<(String, String)> {
+    let mut out = vec![];
+    if let Ok(rd) = std::fs::read_dir("/repo/examples") {
+        let mut paths: Vec<_> = rd.filter_map(|e| e.ok()).map(|e| e.path()).filter(|p| p.extension().map_or(false, |x| x == "simf")).collect();
+        paths.sort();
+        for p in paths {
+            if let Ok(t) = std::fs::read_to_string(&p) {
+                out.push((p.file_name().unwrap().to_string_lossy().to_string(), t));
+            }
+        }
+    }
+    out
+}
